@@ -226,6 +226,7 @@ bool ProcessExecutor::handleRead(int rpipe, unsigned int &result, const std::str
     bytes_read = read(rpipe, &len, bytes_to_read);
     if (bytes_read == 0) {
         // the forked process died in the middle of a message - treat it like a missing pipe
+        VERIF_EVT("PipeEof", verif::kv("file", filename) + verif::kv("fd", rpipe) + verif::kv("mid", "len"));
         ++result;
         return false;
     }
@@ -247,6 +248,7 @@ bool ProcessExecutor::handleRead(int rpipe, unsigned int &result, const std::str
             bytes_read = read(rpipe, data_start, bytes_to_read);
             if (bytes_read == 0) {
                 // the forked process died in the middle of a message - treat it like a missing pipe
+                VERIF_EVT("PipeEof", verif::kv("file", filename) + verif::kv("fd", rpipe) + verif::kv("mid", "data"));
                 ++result;
                 return false;
             }
